@@ -110,6 +110,9 @@ func cmdVF(args []string) {
 			continue
 		}
 		for _, fn := range fns {
+			if pf := os.Getenv("GOVC_PKG"); pf != "" && !strings.Contains(fn.String(), pf) {
+				continue
+			}
 			t0 := time.Now()
 			r := e.verifyFunction(fn, fc)
 			t1 := time.Now()
